@@ -5,7 +5,17 @@ def _equal(case, impl, model):
     # Go's `range` over the keyspace map visits the dbs in arbitrary order. With equal greatest offsets in two dbs the
     # returned tuple depends on that order (theorem counterexample_tie); the model line then lists every outcome
     # allowed by the nondeterministic semantics `LoadRun`, separated by " || ". Otherwise there is exactly one.
-    return impl in model.split(" || ")
+    if impl in model.split(" || "):
+        return True
+    # a malformed INFO reply (not something a Redis server sends; outside the property): HOW the load is refused — error return or
+    # run-time panic — is not compared, only that it is refused and the target untouched
+    f = case.split(" ")
+    if f[0] == "ks":
+        return impl in ("err", "panic") and model in ("err", "panic")
+    if f[0] == "load":
+        norm = lambda s: s.replace("ret=panic ", "ret=err ", 1)
+        return norm(impl) in [norm(m) for m in model.split(" || ")]
+    return False
 
 
 def _signature(case, impl, model):
